@@ -176,7 +176,8 @@ class Variable(Node):
         flatten(self[0], expander, variables, name)
         name = "".join(name).strip()
         if len(name) > 256 * 1024:
-            raise MemoryLimitError(f"template name too long: {len(name)} bytes")
+            res.append(f'<strong class="error">parameter name too long: {len(name)} bytes</strong>')
+            return
 
         v = variables.get(name, None)
 
@@ -192,8 +193,12 @@ class Variable(Node):
 
 class Template(Node):
     def flatten(self, expander, variables, res):
+        from mwlib.parser.templ.evaluate import MemoryLimitError
         try:
             return self._flatten(expander, variables, res)
+        except MemoryLimitError as err:
+            # report inline instead of aborting the article
+            res.append(f'<strong class="error">{err}</strong>')
         except RuntimeError as err:
             # we expect a "RuntimeError: maximum recursion depth exceeded" here.
             # logging this error is rather hard...
